@@ -129,6 +129,7 @@ func Run(ctx *explore.Ctx, bodies []func(s *Sched, tid int)) Result {
 	s := &Sched{ctx: ctx, yield: make(chan int), locks: map[any]*lockState{}, onces: map[any]*onceState{}, wgs: map[any]*wgState{},
 		atomics: map[any]vclock{}, locs: map[string]*locState{}, cur: -1}
 	s.res.Panics = map[int]any{}
+	rt.ResetKeep()
 	old := debug.SetGCPercent(-1) // no address reuse inside one execution
 	defer debug.SetGCPercent(old)
 	for i := 0; i < n; i++ {
